@@ -859,3 +859,23 @@ M('c18-key-to-str-memoised', 'C18', 'R18.7', [(JU,
   "    @staticmethod\n    @functools.lru_cache(maxsize=None)\n    def _key_to_str(key):"),
   (JU, "class JsonUtil:\n", "import functools\n\n\nclass JsonUtil:\n")],
   'True / 1.0 share one memo entry')
+# ---- round 12 --------------------------------------------------------------
+M('c14-not-found-handler-too-wide', ['C14', 'C09', 'C03'],
+  ['R14.4', 'R9.9', 'R3.5'], [(BK,
+  "        os.makedirs(backup_dir, exist_ok=True)\n"
+  "        try:\n"
+  "            os.rename(filename, backup_filename)\n",
+  "        try:\n"
+  "            os.makedirs(backup_dir, exist_ok=True)\n"
+  "            os.rename(filename, backup_filename)\n")],
+  'a failed makedirs of the backup directory reads as "no file"')
+M('c09-move-after-existence-test', ['C09', 'C14', 'C03'],
+  ['R9.9', 'R14.4', 'R3.5'], [(BK,
+  "        try:\n"
+  "            os.rename(filename, backup_filename)\n"
+  "        except FileNotFoundError:\n"
+  "            return False\n",
+  "        if not os.path.lexists(filename):\n"
+  "            return False\n"
+  "        os.rename(filename, backup_filename)\n")],
+  'check-then-act: the loser of a race fails with FileNotFoundError')
